@@ -7,7 +7,7 @@ WT=/tmp/seedrun/wt
 for item in "$@"; do
   IFS=: read -r SID PROP TIER <<< "$item"
   TIER=${TIER:-quick}
-  cd $WT && git checkout -q -- . && git apply /verif/seeded/$SID/patch.diff || { echo "$SID $PROP APPLY-FAILED" >> /tmp/seedrun/SUMMARY; continue; }
+  cd $WT && git checkout -q -- . && git checkout -q --detach $(git -C /repo rev-parse HEAD) && git apply /verif/seeded/$SID/patch.diff || { echo "$SID $PROP APPLY-FAILED" >> /tmp/seedrun/SUMMARY; continue; }
   LOG=/tmp/seedrun/out/$SID.check-$PROP-$TIER.log
   s=$(date +%s)
   (cd /verif && VERIF_REPO=$WT VERIF_LANES=${SEED_LANES:-8} timeout 5400 python3 check.py $PROP --tier $TIER --no-replay --jobs ${SEED_JOBS:-10} > $LOG 2>&1)
